@@ -134,3 +134,22 @@ func (f *Frame) siteDeleteUser(c *ssa.CallCommon, h, k Val, pos token.Pos) {
 		f.assertObl("site", lbl, s.Tags, f.guard, t, f.p.posString(pos))
 	}
 }
+
+// `ghostflag <name> set <event> iter #n`: the flag belongs to one iteration of loop #n of the function - it is false at
+// the start of every iteration (an assignment at the loop head, not an invariant), so that a `site continue #n`
+// condition can say "this iteration did X".
+func (f *Frame) resetIterFlags(li *loopInfo) {
+	rc := f.rootContract()
+	if rc == nil || f.contract == nil {
+		return
+	}
+	for _, fl := range rc.Flags {
+		for i := 1; i+1 < len(fl); i += 2 {
+			if fl[i] == "iter" && fl[i+1] == fmt.Sprintf("#%d", li.ordinal) {
+				comp := flagComp(fl[0])
+				f.vc.regComp(comp, "Bool")
+				f.vc.set(f.cur, comp, "false")
+			}
+		}
+	}
+}
